@@ -872,7 +872,10 @@ def targeted(ctx):
     k = 10**6
     REDS = ["sum", "max", "min", "mean", "prod", "nansum", "nanmean"]
     seen = set()
+    budget = ctx.scale(600, 6000)
     for d in ctx.disagreements[:60]:
+        if tried >= budget:
+            break
         toks = d["request"].split()
         fam = toks[0]
         try:
@@ -990,5 +993,8 @@ def run(ctx, replay=None):
     t0 = time.time()
     search(ctx)
     ctx.notes["t.search_s"] = round(time.time() - t0, 1)
-    if ctx.disagreements:
+    if ctx.disagreements and not ctx.failures:
+        # (when the search already holds concrete failing inputs the verdict is decided)
+        t0 = time.time()
         targeted(ctx)
+        ctx.notes["t.targeted_s"] = round(time.time() - t0, 1)
